@@ -97,9 +97,9 @@ CLAIMED = {
    text="Coq theorems C08_atomic (after EVERY prefix of the operation sequence - create temp, appends, truncations, rename - every file being rewritten holds its old or its complete new content), "
         "C08_only_rename_touches_originals, C08_final (completion: new content everywhere, no temp file), C08_trim (any number of trailing newlines -> exactly one, all sizes), C08_trim_empty, C08_trim_never_panics, "
         "C08_trim_ops, C08_trim_small_refuted (the pre-fix trimmer panics on `halt\\n`: defect D8, fixed), C08_trim_fix_conservative. Correspondence: every original file read back at every database request of an "
-        "uninterrupted update; a driver panic injected at every request k; tiny/empty files and up to 20 trailing blank lines; per-file bytes vs model; no *.temp; the CLI copy through --format in C05.",
+        "uninterrupted update; a driver panic injected at every request k; tiny/empty files and up to 20 trailing blank lines; per-file bytes vs model; no *.temp; the real binary `--override` with SIGKILL delivered at every engine request k (old or complete new content per file afterwards); the CLI copy also through --format in C05.",
    ref="4/C08", technique="Coq proof (invariant over operation prefixes) + fault enumeration at every request",
-   note="Trusted: Coq kernel; POSIX rename atomicity; partial: durability/fsync ordering, non-POSIX file systems, concurrent writers; the syscall-level comparison (strace) is not built, the op model is tied through file contents only."),
+   note="Trusted: Coq kernel; POSIX rename atomicity; partial: durability/fsync ordering, non-POSIX file systems, concurrent writers; the syscall-level comparison (strace) is not built, the op model is tied through file contents at every interruption point."),
  "C13": dict(
    text="Coq theorems C13_off_identity, C13_sql (for every well-formed template incl. nested defaults and the five escapes the model of subst 0.3.7 + substitution.rs expands as documented, failing on an undefined variable), "
         "C13_lookup_order, C13_locals_shadow_environment, C13_value_verbatim, C13_cmd_identity, C13_trailing_dollar_refuted (known finding D9). Correspondence: generated templates and malformed texts, variables local/environment/both, "
@@ -115,7 +115,8 @@ CLAIMED = {
    note="Trusted: Coq kernel; premises col_stable (proved for both column types used) and no_trailing_cr (D16 listed as known finding); Regex::new validity oracle."),
  "C20": dict(
    text="Coq theorems C20_chunking (for all reply sequences and ALL ways of cutting their concatenation into chunks the k-th pull of the FramedRead loop returns exactly the k-th reply's bytes), "
-        "C20_truncated (a stream ending inside the k-th reply gives the k-th call an error - never a frame, never waiting; a clean end gives end-of-stream), C20_stable, C20_prefix_incomplete, about the delimiter-scanner model of "
+        "C20_truncated (a stream ending inside the k-th reply gives the k-th call an error - never a frame, never waiting; a clean end gives end-of-stream), C20_stable, C20_prefix_incomplete, "
+        "C20_request_roundtrip / C20_request_injective (every SQL text is recovered from its escaped request body; distinct texts give distinct request bytes), about the delimiter-scanner model of "
         "JsonDecoder + FramedRead. Correspondence: ExternalDriver against a scripted child process: every single cut point and (thorough: every, quick: sampled) pair of cut points on short streams, random cuts on long ones, "
         "lock-step/eager writing, every truncation point followed by exit or closed stdout, each call under a timeout; request bytes received by the child compared with the model's serde_json escaping; EOF/reaping after shutdown.",
    ref="4/C20", technique="Coq proof (scanner stability + induction over chunks) + exhaustive-cut differential correspondence with a scripted child",
